@@ -535,7 +535,7 @@ func main() {
 	}
 	r := ev.Start("C17")
 	defer r.RecoverMain()
-	r.SetBudget(ev.Pick(r, 100*time.Second, 25*time.Minute))
+	r.SetBudget(ev.Pick(r, 300*time.Second, 25*time.Minute))
 	defer world.Cleanup()
 	r.Assume("scheduling points: before every lock / channel operation of topics, climit, storage (verifhook yield points); real mutexes and channels keep their real semantics",
 		"unsynchronised accesses are invisible to a cooperative scheduler: data races are looked for by the separate free-running -race pass (sampling, reported as such)",
